@@ -80,7 +80,7 @@ class Sim:
             got = await self.limiter(conn).take_tokens()
             req['t1'] = self.loop.time()
             req['limit_after'] = self.current_limit()
-            self.grants.append((self.loop.time(), idx, got))
+            self.grants.append((self.loop.time(), idx, got, len(self.limit_log) - 1))
             if think == 0.0:
                 await asyncio.sleep(0)
             else:
@@ -118,35 +118,35 @@ def check(sim: Sim, victim_task, horizon, label) -> list[Violation]:
     g = sim.grants[:500]
     log = sim.limit_log
 
-    def integral(t0, t1):
-        """(bytes allowed by the limits in [t0,t1], max limit) or None when unlimited somewhere inside"""
+    def integral(t0, t1, r0, r1):
+        """bytes the limits allow in [t0,t1] over the regimes r0..r1 in force for the grants of the window, and the
+        limit of the first regime (the bucket holds at most one second of *that* limit when the window opens);
+        None when a regime of the window is unlimited"""
         total = 0.0
-        mx = 0
-        for i, (ts, lim) in enumerate(log):
+        for i in range(r0, r1 + 1):
+            ts, lim = log[i]
             te = log[i + 1][0] if i + 1 < len(log) else float('inf')
-            a, b = max(ts, t0), min(te, t1)
-            if b < a:
-                continue           # closed intervals: a regime that only touches the window still counts
             if lim == 0:
                 return None
-            total += lim * 1024 * (b - a)
-            mx = max(mx, lim)
-        return total, mx
+            a, b = max(ts, t0), min(te, t1)
+            if b > a:
+                total += lim * 1024 * (b - a)
+        return total, log[r0][1]
     n = len(g)
     prefix = [0]
-    for _, _, b in g:
+    for _, _, b, _ in g:
         prefix.append(prefix[-1] + b)
     worst = None
     for i in range(n):
         for j in range(i, n):
             got = prefix[j + 1] - prefix[i]
-            res = integral(g[i][0], g[j][0])
+            res = integral(g[i][0], g[j][0], g[i][3], g[j][3])
             if res is None:
                 continue
             allowed, mx = res
             # a request that is already waiting inside the previous limiter when the limit changes is still
             # served one chunk from that limiter's bucket: one chunk per connection and change (sound weakening)
-            changes = sum(1 for ts, _ in log[1:] if ts <= g[j][0])
+            changes = g[j][3]
             bound = allowed + mx * 1024 + 1 + 128 * len(sim.conns) * changes
             if got > bound:
                 over = got - bound
@@ -193,7 +193,7 @@ def check(sim: Sim, victim_task, horizon, label) -> list[Violation]:
 
 def _per_conn(sim):
     d = {}
-    for _, c, _ in sim.grants:
+    for _, c, _, _ in sim.grants:
         d[c] = d.get(c, 0) + 1
     return d
 
@@ -224,7 +224,7 @@ def run_case(params: dict) -> dict:
             horizon = sum(victim_thinks) + len(victim_thinks) * (_wait_bound(min(lims), k) + 0.5) + 5
         steps = sim.run(tasks, horizon, [victim])
         viols = check(sim, victim, sim.loop.time(), f"L={limit} k={k}")
-        timeline = tuple((round(t, 5), c) for t, c, _ in sim.grants[:60])
+        timeline = tuple((round(t, 5), c) for t, c, _, _ in sim.grants[:60])
         return {'violations': viols, 'obs': timeline, 'transitions': steps, 'grants': len(sim.grants)}
     finally:
         sim.close()
@@ -261,6 +261,12 @@ def scenarios(tier: str):
                     for thinks in ([0.0] * nreq, [0.01] * nreq, [1.0] * nreq):
                         out.append({'limit': limit, 'k': k, 'offsets': [0.0, 0.0005][:k], 'victim_thinks': thinks,
                                     'greedy_think': 0.0, 'greedy_n': gn, 'change': [idx, new]})
+    # lowering the limit while the old bucket is (nearly) full: slow consumption, change, then fast consumption
+    for limit in (10, 1000, 10000):
+        for new in (max(1, limit // 100), max(1, limit // 2)):
+            for k in (1, 2):
+                out.append({'limit': limit, 'k': k, 'offsets': [0.0, 2.5][:k], 'victim_thinks': [1.0, 1.0] + [0.0] * 600,
+                            'greedy_think': 0.0, 'greedy_n': 600, 'change': [2, new], 'horizon': 40.0})
     # from unlimited to a limit
     for new in limits:
         for idx in range(nreq):
